@@ -39,6 +39,8 @@ func (s *c13StringerNode) String() string {
 // c13Repr: the documented textual representation of the node kinds the monitor uses.
 func c13Repr(n any) string {
 	switch v := n.(type) {
+	case nil:
+		return ""
 	case string:
 		return v
 	case c13StructNode:
@@ -131,7 +133,8 @@ func c13TypedKeys(seed int64) []any {
 			float64(i)+0.5,
 		)
 	}
-	return append(ks, true, false)
+	// keys whose representation is the empty string are keys like any other
+	return append(ks, true, false, "", nil, []byte{}, &c13StringerNode{name: "\x00empty"})
 }
 
 func c13MakeNodes(r interface{ Intn(int) int }, n int, salt int) []any {
